@@ -35,15 +35,38 @@ def norm(node_or_text) -> str:
     return re.sub(r"\s+", " ", t).strip()[:160]
 
 
+def shape_of(node_or_text) -> str:
+    """rename-invariant form of a construct: local variable names replaced by `_` (attribute, callee and keyword names and all
+    literals are kept).  Known findings are keyed by this, so renaming a variable does not turn a listed finding into a new one."""
+    try:
+        tree = node_or_text if isinstance(node_or_text, ast.AST) else ast.parse(str(node_or_text), mode="eval").body
+    except SyntaxError:
+        return norm(node_or_text)
+    import copy as _copy
+    tree = _copy.deepcopy(tree)
+    for x in ast.walk(tree):
+        if isinstance(x, ast.Name) and x.id not in ("np", "self", "len", "abs", "all", "any", "R", "MU0"):
+            x.id = "_"
+    return norm(tree)
+
+
 class Finding:
     def __init__(self, rule, file, func, construct, detail="", line=None, path=None):
         self.rule, self.file, self.func = rule, file, func
         self.construct = norm(construct)
+        self.shape = shape_of(construct)
         self.detail, self.line, self.path = detail, line, path
+        self.ordinal = 1
+
+    @property
+    def ident(self):
+        """identity used for de-duplication inside one run"""
+        return f"{self.rule}|{self.func}|{self.construct}"
 
     @property
     def key(self):
-        return f"{self.rule}|{self.func}|{self.construct}"
+        """identity used for known-findings matching: rule | function | rename-invariant shape # occurrence (source order)"""
+        return f"{self.rule}|{self.func}|{self.shape}#{self.ordinal}"
 
     def as_dict(self):
         d = {"rule": self.rule, "file": self.file, "function": self.func, "construct": self.construct,
@@ -87,8 +110,13 @@ class Result:
             self.samples.append(sample)
 
     def add(self, f: Finding):
-        if f.key not in {x.key for x in self.findings}:
+        if f.ident not in {x.ident for x in self.findings}:
             self.findings.append(f)
+            # occurrence numbers among findings of the same rule/function/shape, in source order
+            same = sorted((x for x in self.findings if (x.rule, x.func, x.shape) == (f.rule, f.func, f.shape)),
+                          key=lambda x: (x.line or 0, x.construct))
+            for i, x in enumerate(same, 1):
+                x.ordinal = i
 
     def new_findings(self):
         """findings that are not listed as known for this property"""
